@@ -263,7 +263,7 @@ EarlyOwnStatus ==
 NoChildLeft == mpc # "wait" => child = "reaped"
 
 \* the observable projection of every finished foreground run satisfies the contract DeadlineL1 with slack 3J
-Obs == [after |-> 0, start |-> 0, D |-> sc.D, x |-> sc.x, onint |-> sc.onint, ok |-> sc.ok, neg |-> sc.neg,
+Obs == [after |-> 0, start |-> 0, prevend |-> Never, gap |-> 0, D |-> sc.D, x |-> sc.x, onint |-> sc.onint, ok |-> sc.ok, neg |-> sc.neg,
         sig |-> IF intDelivered THEN intAt ELSE Never,
         selfexit |-> IF cause = "self" THEN exitAt ELSE Never,
         last |-> exitAt, done |-> doneAt, rundone |-> doneAt, hung |-> FALSE,
